@@ -170,6 +170,61 @@ def cmpPad {α : Type} (cmp : α → α → Ordering) (d : α) : List α → Lis
 /-- `components.Cmp` -/
 def compsCmp (a b : List Int) : Ordering := cmpPad icmp 0 a b
 
+/-! ## Go run-time failures: indexing and slicing
+
+The Go code indexes and slices behind guards (`if len(slice) <= i`, `for i := range min(len(a), len(b))`,
+`ai < len(a) && …`). The models of the comparators are written with the FAILING primitives below at
+exactly those sites — `none` is Go's "index out of range" / "slice bounds out of range" run-time
+panic and becomes `.panic` in the family — so the no-crash theorems have something to prove: the
+guards make every failing branch unreachable (`Proofs/Semantic/GoShape.lean`: each Go-shaped
+function equals `some` of its index-free reformulation, which the order proofs are about). -/
+
+/-- `l[i]` -/
+def goIndex {α : Type} (l : List α) (i : Nat) : Option α := l[i]?
+
+/-- `l[lo:hi]` with `int` bounds (expressions such as `max(i, 0)` or `i+1`) -/
+def goSlice {α : Type} (l : List α) (lo hi : Int) : Option (List α) :=
+  if 0 ≤ lo ∧ lo ≤ hi ∧ hi ≤ (l.length : Int) then some ((l.take hi.toNat).drop lo.toNat) else none
+
+/-- `fetch(slice, i, def)` (utilities.go) / `components.Fetch(i)` (version.go): the guard, then the index -/
+def goFetch {α : Type} (l : List α) (i : Nat) (d : α) : Option α :=
+  if l.length ≤ i then some d else goIndex l i
+
+/-- `if diff != 0 { return diff }` followed by the rest of the loop -/
+def thenGo (o : Ordering) (k : Option Ordering) : Option Ordering := if o = .eq then k else some o
+
+/-- `for i := range n { x := fetch(a, i, d); y := fetch(b, i, d); if diff := cmp(x, y); diff != 0 { return diff } }`
+with `k` iterations left at index `i`; `cmp` itself may index (Debian's `char[0]`) -/
+def padLoop {α : Type} (cmp : α → α → Option Ordering) (d : α) (a b : List α) : Nat → Nat → Option Ordering
+  | 0, _ => some .eq
+  | k + 1, i =>
+    (goFetch a i d).bind fun x => (goFetch b i d).bind fun y => (cmp x y).bind fun o =>
+      thenGo o (padLoop cmp d a b k (i + 1))
+
+/-- the loop over `max(len(a), len(b))` positions -/
+def cmpPadGo {α : Type} (cmp : α → α → Option Ordering) (d : α) (a b : List α) : Option Ordering :=
+  padLoop cmp d a b (max a.length b.length) 0
+
+/-- `for i := range n { if c := cmp(a[i], b[i]); c != 0 { return c } }` with UNGUARDED indices; `k`
+iterations left at index `i`; `.eq` = the loop ran to its end -/
+def lexLoop {α : Type} (cmp : α → α → Ordering) (a b : List α) : Nat → Nat → Option Ordering
+  | 0, _ => some .eq
+  | k + 1, i =>
+    (goIndex a i).bind fun x => (goIndex b i).bind fun y => thenGo (cmp x y) (lexLoop cmp a b k (i + 1))
+
+/-- the loop over `min(len(a), len(b))` positions, then "the longer list wins" -/
+def cmpLexGo {α : Type} (cmp : α → α → Ordering) (a b : List α) : Option Ordering :=
+  (lexLoop cmp a b (min a.length b.length) 0).bind fun o => some (o.then (ncmp a.length b.length))
+
+/-- a crash of the Go-shaped function is a crash of the comparison / of the parser -/
+def CRes.ofGo : Option Ordering → CRes
+  | some o => .ord o
+  | none => .panic
+
+def PRes.ofGo {α : Type} : Option α → PRes α
+  | some v => .ok v
+  | none => .panic
+
 /-! ## strings -/
 
 /-- `strings.Split(s, string(sep))` -/
